@@ -194,6 +194,8 @@ class Parser(Generic[ST]):
             self.specification[name] = pattern
         if name not in self.rules:
             self.insert_rule(self.rules, name, before=before)
+        # compiled scanners depend on the rules and the specification
+        self.__sc.clear()
 
     def register_rule(self, name: str, pattern: str, func: Any) -> None:
         raise DeprecationWarning("This plugin is not compatible with mistune v3.")
